@@ -16,7 +16,7 @@ RULE = ("reference model = the documented rules (first match decides; default op
         "(rule list, path) pairs from a grammar of literals, *, ?, [a-c], [!x] and escapes; (2) process level: random rule lists x "
         "random trees -> sync -> list -l and decoded content vs the model's selection of files and links; (3) selection options: on "
         "damaged arrays fix/check with -f / -d / -m / -e must report and write exactly the files in the selection (snapshot + tags). "
-        "Recorded symlinks (valid and dangling targets), removed or re-pointed before the fix, are entries of the selection like any other. distinct = (rules, path) pairs and (rules, tree) cases.")
+        "Recorded symlinks (valid and dangling targets), removed or re-pointed before the fix, are entries of the selection like any other. The content lines are reordered between syncs: no <content>, .tmp or .lock name of any configured copy may be recorded. distinct = (rules, path) pairs and (rules, tree) cases.")
 
 ALPHA = "abcx1_."
 
